@@ -178,10 +178,23 @@ var orchVariants = []orchVariant{
 	{"single", "  type: singleton\n  tag: test.tag\n",
 		func(s shape2) string { return "test.tag" }, func(s shape2) string { return "" },
 		nil, func(s shape2) []string { return nil }},
-	// thorough only: two keys, both taken from the record's own bytes
-	{"keyset2", "  type: byKeySet\n  keys: [app, host]\n  tag: t.$host.$app\n",
-		func(s shape2) string { return "t." + s.keyHost + "." + s.keyApp }, func(s shape2) string { return s.keyApp + "," + s.keyHost },
-		[]string{"app", "host"}, func(s shape2) []string { return []string{s.keyApp, s.keyHost} }},
+	// thorough only: two keys, both taken from the record's own bytes (host is a metric key and cannot be a key field too)
+	{"keyset2", "  type: byKeySet\n  keys: [app, source]\n  tag: t.$source.$app\n",
+		func(s shape2) string { return "t." + s.keySource() + "." + s.keyApp }, func(s shape2) string { return s.keyApp + "," + s.keySource() },
+		[]string{"app", "source"}, func(s shape2) []string { return []string{s.keyApp, s.keySource()} }},
+}
+
+// keySource is the value the documentation gives the field source after the input stage: `extractTail :[0-9a-f-]` cuts the
+// task off ("source=task.log:123e... => source=task.log"), `truncate maxLen 6 suffix ~` of app=trunc keeps 6 bytes + suffix
+func (s shape2) keySource() string {
+	src := s.source
+	if i := strings.IndexByte(src, ':'); i >= 0 {
+		src = src[:i]
+	}
+	if s.app == "trunc" && len(src) > 6 {
+		src = src[:6] + "~"
+	}
+	return src
 }
 
 var outputSets2 = []outputSet{
@@ -421,6 +434,9 @@ func (s *obsSink) Accept(buffer []*base.LogRecord) {
 		m := p.pidLoc.Get(record.Fields)
 		if _, dup := p.inflight[record]; dup {
 			p.fail("alias:record-delivered-twice", fmt.Sprintf("the parser sink handed over the same *LogRecord twice while the first delivery (marker %s) was still on its way to the pipeline; now it reads marker %q", p.inflight[record].marker, m))
+		}
+		if record.RawLength == 0 {
+			p.fail("alias:released-record-handed-over", fmt.Sprintf("the parser sink handed over a *LogRecord (marker now %q) whose RawLength is 0: it was released (cleared, back in the pool) and is still being passed on", m))
 		}
 		snap := recSnap{fields: make([]string, len(record.Fields)), timestamp: record.Timestamp, unescaped: record.Unescaped, rawLength: record.RawLength, marker: strings.Clone(m)}
 		for i, f := range record.Fields {
